@@ -360,6 +360,28 @@ non-void material) reports its material's density instead (`matDensity`, a param
 def Comp.density (ph : Phys) (matDensity : Rat) (isVoid : Bool) (c : Comp) : Rat :=
   if c.nd.isEmpty && !isVoid then matDensity else _root_.ArmiVerif.Compo.density (compOps ph) ph c
 
+/-! ## vector forms of the mass setters (`addMasses`, `setMasses`) -/
+
+/-- fold of single-nuclide setter calls that stops at the first call that raises (the earlier calls stay applied,
+as in the code): returns the state reached and whether every call was accepted -/
+def foldCalls {α : Type} (can : α → Nuc → Rat → Bool) (f : α → Nuc → Rat → α) (a : α) (ms : NDens) : α × Bool :=
+  ms.foldl (fun (acc : α × Bool) q =>
+    if acc.2 && can acc.1 q.1 q.2 then (f acc.1 q.1 q.2, true) else (acc.1, false)) (a, true)
+
+/-- `addMasses(masses)`: `for n, m in masses.items(): if m: self.addMass(n, m)` -/
+def addMassesWith {α : Type} (can : α → Nuc → Rat → Bool) (add : α → Nuc → Rat → α) (a : α) (ms : NDens) : α × Bool :=
+  foldCalls can add a (ms.filter (fun q => q.2 ≠ 0))
+
+/-- `setMasses(masses)`: `clearNumberDensities()` (every nuclide present to `TRACE_NUMBER_DENSITY`) and then
+`setMass` for every listed nuclide -/
+def setMassesWith {α : Type} (clear : α → α) (can : α → Nuc → Rat → Bool) (set : α → Nuc → Rat → α)
+    (a : α) (ms : NDens) : α × Bool :=
+  foldCalls can set (clear a) ms
+
+/-- `ArmiObject.clearNumberDensities()`: `setNumberDensities({n: TRACE_NUMBER_DENSITY for n in getNuclides()})` -/
+def clearNDs {α : Type} (o : Ops α) (trace : Rat) (a : α) : α := setNDs o a ((o.nucs a).map (fun n => (n, trace)))
+def Comp.clearNDs (trace : Rat) (c : Comp) : Comp := c.setNDs (c.nd.keys.map (fun n => (n, trace)))
+
 /-! ## nuclide selections (`_getNuclidesFromSpecifier`): a nuclide name, an element symbol, or a list of them -/
 
 /-- element table: `elem s = some isotopes` when `s` is an element symbol (`elements.bySymbol[s].nuclides` without
